@@ -510,6 +510,37 @@ class Random(Relation):
                       and float(cy) == (a[2] + a[3] - 1) / 2,
                       'center | wrong for large/numpy ints', f'{a} -> {(cy, cx)}')
             ctx.check((A == B) == (a == b), 'eq | wrong answer')
+            # operands that are not boxes are refused, not coerced
+            for nm, f in (('eq', lambda: A == (a[0], a[1], a[2], a[3])),
+                          ('union', lambda: A | 3),
+                          ('intersection', lambda: A & None)):
+                try:
+                    got = f()
+                except TypeError:
+                    pass
+                else:
+                    ctx.fail(f'{nm} | an operand that is not a box is '
+                             'accepted', repr(got))
+            try:
+                A.get_overlap_slices((5,))
+            except ValueError:
+                pass
+            else:
+                ctx.fail('slices | a 1-element image shape is accepted')
+            if a[0] < a[1] and a[2] < a[3] and max(map(abs, a)) < 2 ** 40:
+                # the box as a region: a rectangle whose own box is the box
+                reg = A.to_region()
+                ctx.check(type(reg).__name__ == 'RectanglePixelRegion'
+                          and (reg.width, reg.height)
+                          == (a[1] - a[0], a[3] - a[2])
+                          and (float(reg.center.x), float(reg.center.y))
+                          == ((a[0] + a[1] - 1) / 2, (a[2] + a[3] - 1) / 2),
+                          'to_region | not the rectangle of the box',
+                          f'{a} -> {reg!r}')
+                if max(map(abs, a)) < 2 ** 30:
+                    ctx.check(tup(reg.bounding_box) == tuple(a),
+                              'to_region | the rectangle\'s bounding box is '
+                              'not the box', f'{a} -> {reg.bounding_box!r}')
             ctx.nontrivial(spec['ta'] != 'int' or max(map(abs, a)) > 1000
                            or (not gap and not common))
         elif kind == 'slices':
